@@ -93,6 +93,9 @@ type MWStep struct {
 	Cut   int64  `json:"cut,omitempty"`  // vacuum: cutoff, seconds after baseTime; -1 = year 2100
 	// Rollback (txn): the transaction ends with ROLLBACK; nothing of it may remain
 	Rollback bool `json:"rollback,omitempty"`
+	// RetireFault (stmt): while the statement commits, the requests that retire its parent
+	// version fail (the commit is acknowledged all the same; the parent stays listed)
+	RetireFault bool `json:"retire_fault,omitempty"`
 }
 
 type MWCase struct {
@@ -160,7 +163,8 @@ func genMWCase(t *rapid.T, g mwGenCfg) MWCase {
 		case r < g.wStmt:
 			s := genStmt(t, cfg, "s")
 			stamp(&s)
-			c.Steps = append(c.Steps, MWStep{Op: "stmt", W: w, Stmts: []Stmt{s}})
+			rf := g.wVacuum > 0 && rapid.IntRange(0, 7).Draw(t, "retirefault") == 0
+			c.Steps = append(c.Steps, MWStep{Op: "stmt", W: w, Stmts: []Stmt{s}, RetireFault: rf})
 		case r < g.wStmt+g.wTxn:
 			k := rapid.IntRange(1, 3).Draw(t, "ntx")
 			st := MWStep{Op: "txn", W: w}
@@ -563,7 +567,19 @@ func (r *mwRun) step(i int, s MWStep) error {
 func (r *mwRun) step1(i int, s MWStep, where string) error {
 	switch s.Op {
 	case "stmt":
-		if err := r.execStmt(s.W, s.Stmts[0], where, false, false); err != nil {
+		if s.RetireFault {
+			client := fmt.Sprintf("verif://w%d", s.W)
+			r.store.Intercept = func(q *fakes3.Req) error {
+				if q.Client == client && ((q.Op == "PUT" && strings.Contains(q.Key, "/root/merged/")) || (q.Op == "DELETE" && strings.Contains(q.Key, "/root/current/"))) {
+					r.o.Class("retirement-failed-commit-acknowledged")
+					return fakes3.ErrInjected
+				}
+				return nil
+			}
+		}
+		err := r.execStmt(s.W, s.Stmts[0], where, false, false)
+		r.store.Intercept = nil
+		if err != nil {
 			return err
 		}
 		if err := r.checkWriter(s.W, where); err != nil {
